@@ -489,7 +489,10 @@ func c12GenTree(r *Rng, depth int, force byte) *c12Tree {
 		t := &c12Tree{kind: 'l'}
 		allTables := r.Chance(1, 2)
 		for i := 0; i < n; i++ {
-			if allTables {
+			if allTables && i > 0 && r.Chance(2, 3) {
+				// records of the same shape: the same keys (and sub-tables) in every element
+				t.list = append(t.list, c12CloneTree(r, t.list[0]))
+			} else if allTables {
 				t.list = append(t.list, c12GenTree(r, depth-1, 'm'))
 			} else {
 				t.list = append(t.list, c12GenTree(r, depth-1, 0))
@@ -498,6 +501,24 @@ func c12GenTree(r *Rng, depth int, force byte) *c12Tree {
 		return t
 	}
 	return &c12Tree{kind: 'a', atom: c12GenAtom(r)}
+}
+
+// c12CloneTree: same shape and keys, fresh scalars
+func c12CloneTree(r *Rng, t *c12Tree) *c12Tree {
+	n := &c12Tree{kind: t.kind, keys: t.keys}
+	switch t.kind {
+	case 'a':
+		n.atom = c12GenAtom(r)
+	case 'l':
+		for _, x := range t.list {
+			n.list = append(n.list, c12CloneTree(r, x))
+		}
+	case 'm':
+		for _, x := range t.vals {
+			n.vals = append(n.vals, c12CloneTree(r, x))
+		}
+	}
+	return n
 }
 
 func (t *c12Tree) size() int {
